@@ -268,3 +268,72 @@ Definition list_end (l : list (nat * nat)) : option nat := match rev l with [] =
 Theorem reversed_list_malformed cp ce ip ie : ip < ie -> ie < cp -> cp < ce ->
   exists p e, list_pos [(cp, ce); (ip, ie)] = Some p /\ list_end [(cp, ce); (ip, ie)] = Some e /\ e < p.
 Proof. intros H1 H2 H3. exists cp, ie. cbn. split; [reflexivity|split; [reflexivity|lia]]. Qed.
+
+(* ------------------------------------------------------------------ the walker and the children a node may not have *)
+(* go/ast stores an optional child either in an interface-typed field (Expr, Stmt: absent = the nil interface) or in a
+   pointer-typed one (pointer to Ident: BranchStmt.Label, ImportSpec.Name; to BasicLit: Field.Tag; to FieldList, BlockStmt,
+   CommentGroup: absent = a nil pointer).  A nil pointer converted to ast.Node is a NON-nil interface: a test made behind the conversion does
+   not see that the child is absent.  The walker dispatches on the dynamic type and offers the node to the rules filed under
+   that type; the matcher reads the node's fields. *)
+Inductive child := ChNode | ChNilPtr | ChNilIface.
+
+(* what a field of the given class can hold *)
+Definition holds (class : string) (c : child) : bool :=
+  match c with
+  | ChNode => true
+  | ChNilPtr => String.eqb class "ptr"
+  | ChNilIface => String.eqb class "iface"
+  end.
+
+(* `if n.F != nil` on the field itself compares the pointer resp. the interface *)
+Definition field_test (c : child) : bool := match c with ChNode => true | _ => false end.
+(* `if x != nil` behind a conversion to an interface type (a helper `func (w) walkOpt(x ast.Node)`) *)
+Definition converted_test (c : child) : bool := match c with ChNilIface => false | _ => true end.
+
+(* walk(c): a nil interface matches no case of the type switch; a nil pointer is dispatched like a node and dereferenced by the matcher *)
+Definition walk_node (c : child) : outcome unit :=
+  match c with ChNode => Ok tt | ChNilIface => Ok tt | ChNilPtr => Panic PNilDeref end.
+
+Definition walk_child (test : child -> bool) (c : child) : outcome unit := if test c then walk_node c else Ok tt.
+
+Theorem walk_child_field_test_total class c : holds class c = true -> walk_child field_test c = Ok tt.
+Proof. destruct c; reflexivity. Qed.
+
+(* an interface-typed child may even be walked without a test *)
+Theorem walk_iface_child_total c : holds "iface" c = true -> walk_node c = Ok tt.
+Proof. destruct c; cbn; [reflexivity|discriminate|reflexivity]. Qed.
+
+(* a pointer-typed optional child behind a converted test, or without any: the absent child crashes the walk *)
+Theorem walk_child_converted_test_crashes :
+  holds "ptr" ChNilPtr = true /\ walk_child converted_test ChNilPtr = Panic PNilDeref /\ walk_child (fun _ => true) ChNilPtr = Panic PNilDeref.
+Proof. repeat split. Qed.
+
+(* the regenerated inventory: (node type, field, class, go/ast says "or nil", method called, under `if n.F != nil`) *)
+Definition walker_row := (string * string * string * bool * string * bool)%type.
+
+Definition walker_row_ok (r : walker_row) : bool :=
+  match r with (_, _, class, optional, callee, guarded) =>
+    if String.eqb class "ptr" && optional then guarded && String.eqb callee "walk" else true
+  end.
+
+(* every pointer-typed optional child go/ast knows of that the walker hands on is handed to walk itself under a test of the
+   field; no method of the walker tests a node parameter of interface type (the place where a converted test would live) *)
+Definition walker_children_okb (rows : list walker_row) (iface_helpers : list string) : bool :=
+  forallb walker_row_ok rows && match iface_helpers with [] => true | _ => false end.
+
+(* the children the seeds of this property went through must be in the inventory (a walker that stops visiting them is C01's) *)
+Definition walker_covers (rows : list walker_row) (node field : string) : bool :=
+  existsb (fun r => match r with (n, f, _, _, _, _) => String.eqb n node && String.eqb f field end) rows.
+
+(* under the obligation, walking any child of an inventoried call is total, whatever the field holds *)
+Theorem walker_children_total rows helpers : walker_children_okb rows helpers = true ->
+  forall node field class optional callee guarded c,
+    In (node, field, class, optional, callee, guarded) rows ->
+    String.eqb class "ptr" && optional = true -> holds class c = true ->
+    guarded = true /\ walk_child field_test c = Ok tt.
+Proof.
+  intros H node field class optional callee guarded c Hin Hopt Hc.
+  unfold walker_children_okb in H. apply andb_prop in H. destruct H as [H _].
+  rewrite forallb_forall in H. specialize (H _ Hin). cbn in H. rewrite Hopt in H.
+  apply andb_prop in H. destruct H as [Hg _]. split; [exact Hg|]. destruct c; reflexivity.
+Qed.
